@@ -198,7 +198,7 @@ def gen_params(name, r, meta, light=True):
     p["prior"] = _prior(r, d)
     p["random_state"] = _seed(r)
   elif name in ("MMC", "MMC_Supervised"):
-    p["max_iter"] = r.choice([1, 2, 5, 15, 40])
+    p["max_iter"] = r.choice([1, 2, 3, 6, 12])
     p["tol"] = r.choice([1e-3, 1e-2])
     p["init"] = _prior(r, d)
     p["random_state"] = _seed(r)
@@ -305,5 +305,13 @@ def feasible(name, params, D):
     return False
   nc = params.get("n_components")
   if nc is not None and not (1 <= nc <= d):
+    return False
+  if name == "RCA_Supervised":
+    cs, nch = params["chunk_size"], params["n_chunks"]
+    counts = np.bincount(D.y, minlength=D.classes)
+    if nch * (cs - 1) < d + 2 or int(np.sum(counts // cs)) < nch:
+      return False
+  if name == "RCA" and (D.n_chunks < 2 or
+                        int(np.sum(D.chunks >= 0)) - D.n_chunks < d + 2):
     return False
   return True
